@@ -277,6 +277,63 @@ func searchInput(r *rand.Rand, in string, l syntax.LangVariant, allSplits bool, 
 	return row
 }
 
+// ---------------------------------------------------------------- read-buffer boundary family
+
+// lookahead-sensitive constructs; each is placed so that every one of its bytes (and the two bytes
+// around it) falls on a read-buffer boundary VerifBufSize*k, k = 1, 2
+var boundaryConstructs = []struct {
+	src  string
+	lang syntax.LangVariant
+}{
+	{"${==x}", syntax.LangZsh}, {"${~~x}", syntax.LangZsh}, {"${^^x}", syntax.LangZsh}, {"${=^~x}", syntax.LangZsh}, {"$==x", syntax.LangZsh},
+	{"<1-10>", syntax.LangZsh}, {"<->", syntax.LangZsh}, {"<12-", syntax.LangZsh}, {"$#x $+x", syntax.LangZsh},
+	{"\\\r\nb", syntax.LangBash}, {"\\\nb", syntax.LangBash}, {"x\r\ny", syntax.LangBash}, {"\\\\ \\", syntax.LangBash},
+	{"$'a\\'b' $\"c\"", syntax.LangBash}, {"$((1+2)) $[3]", syntax.LangBash}, {"$(( (a) ))", syntax.LangBash},
+	{"é世😀", syntax.LangBash}, {"😀😀", syntax.LangPOSIX}, {"\xf0\x9f\x98", syntax.LangBash},
+	{"`echo \\\\\\\\\\$x \\`y\\``", syntax.LangBash}, {"\"`echo \\\"z\\\"`\"", syntax.LangBash},
+	{"${x:-y} ${#x} ${x/a/b}", syntax.LangBash}, {"<(a) >(b) <<<c", syntax.LangBash}, {"a&&b||c|&d;;", syntax.LangBash},
+	{"x=(a b) y+=z", syntax.LangMirBSDKorn}, {"@(a|b) !(c)", syntax.LangBash}, {"a\x00b", syntax.LangBash},
+}
+
+func searchBoundary(emit func(searchRow)) {
+	B := syntax.VerifBufSize
+	for _, c := range boundaryConstructs {
+		for k := 1; k <= 2; k++ {
+			for start := B*k - len(c.src) - 1; start <= B*k+1; start++ {
+				// "echo " + padding word + " " + construct + " z": the construct starts at offset start
+				pad := start - len("echo ") - 1
+				in := "echo " + strings.Repeat("a", pad) + " " + c.src + " z\n"
+				row := searchRow{In: hx.Hex(in), Lang: c.lang.String()}
+				want := parseDump(in, c.lang, nil, false, true) // whole reads (strings.Reader): 1024-byte chunks
+				row.Err = strings.HasPrefix(want, "ERR")
+				try := func(sched []int, eager bool) {
+					row.Nsched++
+					got := parseDump(in, c.lang, sched, eager, false)
+					if got != want && len(row.Fails) < 3 {
+						w, g := firstDiff(want, got)
+						row.Fails = append(row.Fails, searchFail{Sched: sched, Eager: eager, Want: w, Got: g})
+					}
+				}
+				n := len(in)
+				halves := make([]int, 0, n/(B/2)+1)
+				for left := n; left > 0; left -= B / 2 {
+					halves = append(halves, B/2)
+				}
+				try(hxreader.Ones(n), false)     // one byte at a time
+				try(halves, false)               // half-buffer reads
+				try(nil, true)                   // whole reads, data+EOF
+				try([]int{start + 1}, false)     // a read ending inside the construct
+				try([]int{B*k - 1}, false)       // one unread byte left before the boundary
+				try([]int{B*k + 1, 0, 1}, false) // boundary crossed by one byte, then an empty read
+				if len(row.Fails) > 0 {
+					row.Clause = "parse_depends_on_read_schedule"
+				}
+				emit(row)
+			}
+		}
+	}
+}
+
 func main() {
 	o := hx.ParseArgs()
 	defer hx.Flush()
@@ -353,6 +410,8 @@ func main() {
 				emit(searchInput(r, in, l, thorough, 1))
 			}
 		}
+		// lookahead-sensitive constructs straddling the read-buffer boundary (every tier, every seed)
+		searchBoundary(emit)
 		// fixed enumeration of mutations; the seed rotates the slice the quick tier visits
 		type mut struct{ ci, k int }
 		var total int
